@@ -264,6 +264,21 @@ def cmpLine (f : Fam) (kind : String) (a b : Text) : String :=
         | some e, some c, some ha, some hb => s!"{b01 e} {ordStr c} {b01 (ha == hb)}"
         | _, _, _, _ => "PANIC"
 
+/-- `cross` (C07/C08): every cross-type `==`/`partial_cmp` impl forwards to the parts comparison -/
+def crossLine (f : Fam) (a b : Text) : String :=
+  if !okArg f "ref" a || !okArg f "ref" b then "invalid"
+  else match Cmp.refEq a b, Cmp.refCmp a b with
+    | some e, some c =>
+      let ci : String := match c with | .lt => "-1" | .eq => "0" | .gt => "1"
+      s!"eq={b01 e} cmp={ci} cross=ok"
+    | _, _ => "PANIC"
+
+/-- `streq` (C14): comparison with plain text is comparison of the text -/
+def streqLine (kind : String) (v : Text) : String :=
+  match Kind.ofString? kind with
+  | some k => if accepts k v then "ok" else "invalid"
+  | none => "bad-op"
+
 def hashLine (f : Fam) (kind : String) (a : Text) : String :=
   match cmpFns kind with
   | none => "bad-op"
